@@ -39,8 +39,8 @@ CHECKS = {
         ref="DESIGN.md section 5 C05"),
     "C06": dict(
         level="model_checking",
-        technique="TLA+ configuration-level specification TLCPCfg (policy verdict per configuration, enumerated by TLC) replayed as real handshakes; TLA+ executable transcription of the GM/T 0024 key schedule and record protection (RecordWire over SM3/HMAC/PRF/SM4/GCM) decoding captured GMSSL wire bytes + key log in TLC; Go standard library crypto/tls as independent TLS 1.0-1.2 peer",
-        text="TLC enumerates 8.7k configurations (server mode x client kind x suite lists and preference x ClientAuth x client certificate absent/trusted/untrusted x certificate source x tickets) with the verdict the policy demands; each chosen configuration (all in thorough) is a real gmtls client/server handshake whose outcome, version, suite, peer certificates and exported keying material on both ends are compared with the specification, a subset also moves 260 kB in odd fragment sizes; captured GMSSL sessions of both suites are decoded by TLC from the wire and the key log alone (key block, first protected records, both Finished verify_data, application data); every TLS role/version/suite is run against crypto/tls.",
+        technique="TLA+ configuration-level specification TLCPCfg (policy verdict per configuration, enumerated by TLC) replayed as real handshakes; TLA+ flight specification TLCPFlight evaluated by TLC on the message sequence recorded from every run; TLA+ executable transcription of the GM/T 0024 key schedule and record protection (RecordWire over SM3/HMAC/PRF/SM4/GCM) decoding captured GMSSL wire bytes + key log in TLC; Go standard library crypto/tls as independent TLS 1.0-1.2 peer",
+        text="TLC enumerates 8.7k configurations (server mode x client kind x suite lists and preference x ClientAuth x client certificate absent/trusted/untrusted x certificate source x tickets) with the verdict the policy demands; each chosen configuration (all in thorough) is a real gmtls client/server handshake whose outcome, version, suite, peer certificates and exported keying material on both ends are compared with the specification, a subset also moves 260 kB in odd fragment sizes; captured GMSSL sessions of both suites are decoded by TLC from the wire and the key log alone (key block, first protected records, both Finished verify_data, application data); every TLS role/version/suite is run against crypto/tls; the handshake messages each run shows on the wire (plaintext messages, ChangeCipherSpec, protected records, alerts, per direction and merged) are checked by TLC against TLCPFlight: a completed handshake shows exactly the standard flights for what was negotiated and configured (ServerKeyExchange, CertificateRequest, client Certificate / CertificateVerify, NewSessionTicket iff offered and enabled), an aborted one a prefix of them.",
         note="Trusts TLC, the fixture PKI, the interposer. The independent GM/T 0024 implementation is the TLA+ specification itself (none is installed); ECDHE-SM2 suites are specified as not negotiable (no server implementation). Alert codes and which side errs first are not compared.",
         ref="DESIGN.md section 5 C06"),
     "C07": dict(
